@@ -60,12 +60,18 @@ def shards(tier):
             for mix in itertools.combinations(names, r):
                 for fl in ("V", "I"):
                     out.append(("time-domain", ("td", base, mix, fl)))
-    for (n, b) in [(2, 2), (2, 3), (3, 3)] + ([(3, 4)] if T else []):
+    for (n, b) in [(2, 2), (2, 3), (3, 3), (2, 4)] + ([(3, 4)] if T else []):
         topos = sp.topologies(n, b)
         allk = dyn.kind_tuples(b)
         for ti in range(len(topos)):
             for ch in sp.chunks(range(len(allk)), 8):
                 out.append(("transient RLC(%d,%d)" % (n, b), ("tr", n, b, ti, ch[0], ch[-1] + 1)))
+    # one source and two reactive elements of one kind need five branches at least (the C10 twin family)
+    topos = sp.topologies(3, 5)
+    allk = dyn.kind_tuples(5, "twin")
+    for ti in range(len(topos)):
+        for ch in sp.chunks(range(len(allk)), 40):
+            out.append(("transient RLC(3,5) twin reactive elements", ("trtwin", 3, 5, ti, ch[0], ch[-1] + 1)))
     return out
 
 
@@ -107,7 +113,7 @@ def run_shard(desc):
     else:
         _, n, b, ti, k0, k1 = desc
         topo = sp.topologies(n, b)[ti]
-        allk = dyn.kind_tuples(b)
+        allk = dyn.kind_tuples(b, "twin") if desc[0] == "trtwin" else dyn.kind_tuples(b)
         for kt in allk[k0:k1]:
             ok, why = dyn.class_non_degenerate(topo, kt)
             res["evals"] += 4
@@ -308,17 +314,26 @@ def judge_tr(d, shape, res):
         comps = [c for c in d["components"] if c[0] != "ground"]
         bump(res["hits"], "power_formula_transient")
         nz = False
+        total, total_abs = 0.0, 0.0
         for c in comps:
             v = np.asarray(sol.get_voltage(c[1])[1], float)
             i = np.asarray(sol.get_current(c[1])[1], float)
             tp, p = sol.get_power(c[1])
             p = np.asarray(p, float)
+            total = total + p
+            total_abs = total_abs + np.abs(p)
             sc = max(np.abs(v).max() * np.abs(i).max(), 1e-300)
             if np.abs(p).max() > 0:
                 nz = True
             if p.shape != v.shape or np.abs(p - v * i).max() > 1e-9 * sc or np.abs(np.asarray(tp, float) - t).max() > 1e-12 * t[-1]:
                 add_violation(res, "power_formula_transient", dict(case, element=c[1]), (v * i)[40:43].tolist(), p[40:43].tolist(), "transient power of %s is not v*i at every sample" % c[1])
                 return
+        # at every sample the instantaneous powers of all elements sum to zero (every element in the passive convention, first -> second terminal)
+        bump(res["hits"], "tellegen_sum_zero")
+        if np.abs(total).max() > 1e-8 * max(np.abs(total_abs).max(), 1e-300):
+            k = int(np.argmax(np.abs(total)))
+            add_violation(res, "tellegen_sum_zero", dict(case, sample=k), 0.0, float(total[k]), "instantaneous powers of all elements do not sum to zero in the transient solution")
+            return
         if nz:
             res["nontrivial"] += 1
         res["fps"].add(fp(float(p[50]), float(p[100])))
